@@ -10,6 +10,18 @@ macro("LISTED_COMPLETE", ["root", "l"],
 # C04: local exactness of one list
 macro("LEX", ["l"], "l.number_of_examples == lsum(l.shard_files, 'number_of_examples') + lsum(l.children_shard_lists, 'number_of_examples')")
 macro("DOC_AT", ["root", "rel"], "sl_ref(PARSE_ShardsList(disk_read(PJOIN(root, rel))))")
+# The representation / crash invariant of the metadata on disk (C04, C06):
+# every completely written shard-list document is valid, locally exact, knows
+# its own location, and names only completely written files
+macro("DOC_OK", ["root", "rel", "d"],
+      "VALID_ShardsList(d) and LEX(d) and LISTED_COMPLETE(root, d) and d.relative_path_self == rel")
+macro("DISK_OK", ["root"],
+      "forall(lambda rel: implies(dstate(PJOIN(root, rel)) == 2 and PNAME(rel) == 'shards_list.json' and SAFE(rel),"
+      "    DOC_OK(root, rel, DOC_AT(root, rel)) and allocated(DOC_AT(root, rel))), rel='U')")
+# an object (an open shard's info) is not an entry of any list document on disk
+macro("NOT_ON_DISK", ["root", "x"],
+      "forall(lambda rel, i: implies(dstate(PJOIN(root, rel)) == 2 and PNAME(rel) == 'shards_list.json' and SAFE(rel)"
+      "    and 0 <= i and i < len(DOC_AT(root, rel).shard_files), DOC_AT(root, rel).shard_files[i] is not x), rel='U')")
 _OTHERS_KEPT = ("forall(lambda p: implies(p != %s and old(dstate(p)) == 2, dstate(p) == 2 and disk_read(p) == old(disk_read(p))), p='U')")
 
 contract(MSM, "ShardsList.write_config", props=["C04", "C06", "C08", "C16", "C17", "C20", "C05"],
@@ -34,9 +46,12 @@ contract(MSM, "ShardsList.write_config", props=["C04", "C06", "C08", "C16", "C17
 contract(MSM, "ShardsList.load_or_create", props=["C04", "C08", "C17", "C06", "C20"],
     params={"dataset_root_path": "U", "relative_path_self": "U"}, returns="ref:ShardsList",
     modifies=[], fs_root="dataset_root_path",
-    requires=["SAFE(relative_path_self)", "PNAME(relative_path_self) == 'shards_list.json'"],
+    requires=["SAFE(relative_path_self)", "PNAME(relative_path_self) == 'shards_list.json'",
+              "DISK_OK(dataset_root_path)"],
     ensures=[
         "fresh(result)",
+        # the disk invariant carries over to the loaded copy
+        (["C04", "C06"], "VALID_ShardsList(result) and LEX(result) and LISTED_COMPLETE(dataset_root_path, result) and result.relative_path_self == relative_path_self"),
         # C08: an existing list is loaded (extended later), never recreated
         (["C08", "C04"], "implies(dstate(PJOIN(dataset_root_path, relative_path_self)) == 2, SL_SAME(result, DOC_AT(dataset_root_path, relative_path_self)))"),
         ("C08", "implies(dstate(PJOIN(dataset_root_path, relative_path_self)) != 2,"
@@ -51,6 +66,7 @@ contract(MSM, "ShardsList.load_or_create", props=["C04", "C08", "C17", "C06", "C
 # ---- Shard -------------------------------------------------------------------------
 macro("SHARD_PATH", ["s"], "PJOIN(s._dataset_path, s.shard_info.file_infos[0].file_path)")
 macro("SHARD_OK", ["s"], "len(s.shard_info.file_infos) >= 1 and VALID_ShardInfo(s.shard_info)"
+      " and PNAME(s.shard_info.file_infos[0].file_path) != 'shards_list.json'"
       " and implies(s._shard_writer is not None, s._shard_writer.path == SHARD_PATH(s))")
 macro("IS_DIGESTS", ["lst", "algs", "content"],
       "len(lst) == len(algs) and forall(lambda j: implies(0 <= j and j < len(algs), lst[j] == HEX(algs[j], content, FLEN(content))))")
@@ -115,6 +131,7 @@ contract(MF, CTX + ".close_shard", props=["C10", "C04", "C06", "C08", "C18", "C1
         "SHARD_OK(shard) and shard._dataset_path == self._dataset_root_path",
         "implies(split in self._shards_lists, LIST_OK(self, split))",
         "SAFE(self._relative_path_from_split)", "SAFE(split)",
+        "DISK_OK(self._dataset_root_path)",
     ],
     modifies=["Shard._shard_writer@shard", "Writer.closed@shard._shard_writer",
               "FileInfo.hash_checksums@shard.shard_info.file_infos[0]",
@@ -130,6 +147,10 @@ contract(MF, CTX + ".close_shard", props=["C10", "C04", "C06", "C08", "C18", "C1
         "shard._shard_writer is None",
         "split in self._shards_lists",
         "LIST_OK(self, split)",
+        # C06 / C04: the disk invariant holds again after the two file-system effects
+        (["C06", "C04"], "DISK_OK(self._dataset_root_path)"),
+        # the list document written is the in-memory list
+        ("C04", "implies(self._write_updates, SL_SAME(DOC_AT(self._dataset_root_path, self._shards_lists[split].relative_path_self), self._shards_lists[split]))"),
         # a list used for the first time is a new object (loaded or created), an already used one stays the same object
         "implies(old(split in self._shards_lists), self._shards_lists[split] is old(self._shards_lists[split]))",
         "implies(not old(split in self._shards_lists), fresh(self._shards_lists[split])"
@@ -295,13 +316,14 @@ contract(MF, MFD + ".get_updated_infos", props=["C09"], params={}, returns="list
 macro("FCTX", ["f"], "f._dataset_filler_context")
 contract(MF, MFD + "._update_infos", props=["C04", "C06", "C09", "C16", "C05"], params={},
     requires=["len(self._updated_infos) == 0", "CTX_LISTS_OK(FCTX(self))",
-              "FCTX(self)._dataset_root_path == self._dataset.path"],
+              "FCTX(self)._dataset_root_path == self._dataset.path", "DISK_OK(self._dataset.path)"],
     modifies=["DatasetFiller._updated_infos@self", "ghost:fs"],
     at_call={"write_config": [
         # C16: list files are hashed with the dataset's configured algorithms
         ("C16", "callee_hashes == ALGS(self._dataset)"),
         ("C09", "callee_dataset_root_path == self._dataset.path")]},
     ensures=[
+        (["C06", "C04"], "DISK_OK(self._dataset.path)"),
         # one info per list written by this filler, each exact for its file
         ("C04", "len(self._updated_infos) == dictlen(FCTX(self)._shards_lists)"),
         ("C04", "forall(lambda j: implies(0 <= j and j < len(self._updated_infos), INFO_EXACT(self._dataset.path, ALGS(self._dataset), self._updated_infos[j])"
@@ -309,7 +331,7 @@ contract(MF, MFD + "._update_infos", props=["C04", "C06", "C09", "C16", "C05"], 
     ],
     loops={1: Loop(inv=[
         "0 <= _k and len(self._updated_infos) == _k and _k <= dictlen(FCTX(self)._shards_lists)",
-        "CTX_LISTS_OK(FCTX(self))", "FCTX(self)._dataset_root_path == self._dataset.path",
+        "CTX_LISTS_OK(FCTX(self))", "FCTX(self)._dataset_root_path == self._dataset.path", "DISK_OK(self._dataset.path)",
         ("C04", "forall(lambda j: implies(0 <= j and j < _k, INFO_EXACT(self._dataset.path, ALGS(self._dataset), self._updated_infos[j])"
                 "  and self._updated_infos[j].shard_list_info_file.file_path == FCTX(self)._shards_lists[dictkey(FCTX(self)._shards_lists, j)].relative_path_self))"),
     ], frame={"DatasetFiller._updated_infos": ["self"], "DatasetFiller._dataset": [], "DatasetFiller._dataset_filler_context": [],
@@ -331,13 +353,13 @@ contract(MW, "DatasetWriting.write_config", props=["C04", "C05", "C06", "C08", "
     params={"updated_infos": "list:ref:ShardListInfo"}, returns="ref:FileInfo",
     defs=[_WFT_DEF],
     requires=[
-        "DS_WF(self)",
+        "DS_WF(self)", "DISK_OK(self.path)",
         # every update is exact for a completely written list file (C06: lists before the description)
         "forall(lambda j: implies(0 <= j and j < len(updated_infos), INFO_EXACT(self.path, ALGS(self), updated_infos[j])))",
     ],
     modifies=["DatasetInfo.splits", "ghost:fs"],
     ensures=[
-        "DS_WF(self)",
+        "DS_WF(self)", "DISK_OK(self.path)",
         # C08: untouched splits keep their entry
         ("C08", "forall(lambda s: implies(forall(lambda j: implies(0 <= j and j < len(updated_infos), PART(updated_infos[j].shard_list_info_file.file_path, 0) != s)),"
                 "   (s in self._dataset_info.splits) == old(s in self._dataset_info.splits)"
@@ -373,12 +395,14 @@ contract(MF, MFD + ".__exit__", props=["C10", "C04", "C06", "C09", "C08"],
         ("C09", "implies(not self._auto_update_dataset, frame_old('DatasetInfo.splits'))"),
         # ... with it the dataset's tree is well formed again (induction step over sessions)
         (["C04", "C08"], "implies(self._auto_update_dataset, DS_WF(self._dataset))"),
+        (["C06", "C04"], "DISK_OK(self._dataset.path)"),
     ],
     raises={"ValueError": ["True"]},
     loops={1: Loop(inv=[
         "0 <= _k",
         "FCTX(self)._dataset_root_path == self._dataset.path and len(self._updated_infos) == 0",
         "FCTX(self)._examples_per_shard >= 1 and SAFE(FCTX(self)._relative_path_from_split) and CTX_LISTS_OK(FCTX(self))",
+        "DISK_OK(self._dataset.path)",
         "forall(lambda s: implies(s in FCTX(self)._shards_lists, SAFE(s)), s='U')",
         # splits not yet visited are still in the open state; visited ones with examples are closed
         "forall(lambda s: implies(s in FCTX(self)._current_shards_progress and dictidx(FCTX(self)._current_shards_progress, s) >= _k, FINV1(FCTX(self), s)), s='U')",
